@@ -274,7 +274,7 @@ def judge_faults(case) -> Outcome:
 @st.composite
 def strat_structural(draw, tier):
     kind = draw(st.sampled_from(['choice_without_utility', 'util_av_key_mismatch', 'overlapping_nests', 'nest_outside_choice_set',
-                                 'non_numeric_column', 'nan_cell', 'empty_table', 'variable_outside_trajectory',
+                                 'non_numeric_column', 'nan_cell', 'empty_table', 'variable_outside_trajectory', 'empty_availability',
                                  'cnl_nest_outside_choice_set']))
     n_alts = draw(st.integers(2, 5))
     alts = draw(st.lists(st.integers(0, 40), min_size=n_alts, max_size=n_alts, unique=True))
@@ -345,6 +345,11 @@ def _run_structural(case):
         # the choice column takes a value for which no utility is defined (on one row)
         database.data.loc[database.data.index[case['row'] % len(df)], case['choice_col']] = case['extra']
         expr = models.loglogit(util, av, choice)
+    elif kind == 'empty_availability':
+        # a dictionary of availabilities that lists no alternative at all
+        expr = (models.loglogit if case['column'] % 2 else models.logit)(util, {}, choice)
+        if case['row'] % 2:
+            expr = expr + Numeric(1.0)
     elif kind == 'util_av_key_mismatch':
         if av is None:
             av = {a: 1 for a in case['alts']}
@@ -359,6 +364,11 @@ def _run_structural(case):
         inside = exp(models.loglogit(util, av, choice))
         outside = Variable(df.columns[case['column'] % len(df.columns)])
         expr = PanelLikelihoodTrajectory(inside) * exp(outside * 0.01) if case['row'] % 2 else outside * 0.01 + PanelLikelihoodTrajectory(inside)
+        if case['extra'] % 3 == 0:
+            # the stray variable sits inside a Monte-Carlo integral, next to the trajectory
+            from biogeme.expressions import MonteCarlo, bioDraws, log
+
+            expr = log(MonteCarlo(PanelLikelihoodTrajectory(inside * exp(0.01 * bioDraws('xi_c12', 'NORMAL'))) * exp(outside * 0.01)))
         the = bio.BIOGEME(database, expr, parameters=Parameters())
         return ('value', float(the.calculate_likelihood([0.0] * len(the.free_beta_names), scaled=False)))
     if case['entry'] == 'biogeme':
@@ -478,7 +488,7 @@ def reads(spec, env, alg):
 @st.composite
 def strat_missing(draw, tier):
     case = draw(gen.expression_cases(tier, sharing=False, max_rows=4, min_free=0))
-    case['code'] = draw(st.sampled_from([99999, 99999, -999, 77]))
+    case['code'] = draw(st.sampled_from([99999, 99999, -999, 77, 0]))
     case['entry'] = draw(st.sampled_from(['get_value_c', 'biogeme_likelihood', 'biogeme_simulate']))
     if case['entry'] == 'get_value_c':
         case['code'] = 99999  # the direct path has no way to declare another code
@@ -514,6 +524,11 @@ def judge_missing(case) -> Outcome:
     rows = build.table_rows(case['table'])
     r = case['row'] % len(rows)
     code = float(case['code'])
+    if code == 0.0:
+        # a declared code of 0: the generated table is first made free of zeros (1 instead), the planted cell is the only one
+        case = dict(case, table=dict(columns=[[n_, t_, [(1 if t_ == 'int' else 1.0) if v == 0 else v for v in vals]]
+                                              for n_, t_, vals in case['table']['columns']]))
+        rows = build.table_rows(case['table'])
     try:
         refs = reference_values(case, root)
         alg = refsem.JetAlg(0)
